@@ -96,11 +96,13 @@ def r1_dispatch(ctx):
     pre = flow.methods.get('_preprocess_chain')
     if pre is None:
         raise AnalysisError('Flow._preprocess_chain not found')
+    pre = ctx.N(pre)        # (the fold may live in a helper)
     loops = [n for n in own_nodes(pre.node) if isinstance(n, ast.For)]
     if len(loops) != 1:
         raise AnalysisError('Flow._preprocess_chain: expected one loop')
     pl = loops[0]
-    run.check(pseudo(pl.iter) == 'self.chain', 'R1', where(ctx.repo, pl), pre.qualname, pl.iter,
+    from rules.stream import subst_once as _so1
+    run.check(pseudo(_so1(pre.node, pl.iter)) == 'self.chain', 'R1', where(ctx.repo, pl), pre.qualname, pl.iter,
               '_preprocess_chain does not iterate self.chain in source order')
     lv = pl.target.id if isinstance(pl.target, ast.Name) else None
     ret = [n for n in own_nodes(pre.node) if isinstance(n, ast.Return) and isinstance(n.value, ast.Name)]
